@@ -357,6 +357,9 @@ structure Env where
   hash : Option Json → Bytes
   /-- does `run` accept the decoded config (all apps provision and start)? -/
   accepts : Json → Bool
+  /-- the registered config adapter (`caddyconfig.GetAdapter(name).Adapt`): `none` = it
+      returned an error -/
+  adapt : Body → Option Json
 
 structure State where
   rawCfg : Json                  -- Go: `rawCfg`, a map that normally has the one key "config"
@@ -457,14 +460,35 @@ inductive HMethod where
   | get | post | put | patch | delete | other
 deriving DecidableEq, Repr
 
+/-- the Content-Type header, as far as the two handlers that look at it distinguish values
+    (`handleConfig`: contains "/json"; `adaptByContentType`: empty / `mime.ParseMediaType`
+    fails / ends in "/json" / no slash / adapter name after the slash) -/
+inductive CT where
+  | none          -- no header
+  | json          -- "application/json"
+  | jsonParams    -- "application/json; charset=utf-8"
+  | jsonx         -- "application/jsonx": contains "/json" but does not end in it
+  | plain         -- "text/plain": adapter name "plain" (not registered)
+  | noSlash       -- "json": parses, no slash
+  | invalid       -- "text/plain; charset": mime.ParseMediaType fails
+  | adapter       -- "application/<name of the registered adapter>"
+deriving DecidableEq, Repr
+
+def CT.containsJSON : CT → Bool
+  | .json | .jsonParams | .jsonx => true
+  | _ => false
+
 structure Req where
   method : HMethod
   path : Bytes
   body : Body
   ifMatch : Bytes
   force : Bool        -- Cache-Control: must-revalidate
-  ctJSON : Bool       -- Content-Type contains "/json"
+  ct : CT             -- Content-Type
 deriving Repr
+
+/-- `strings.Contains(ct, "/json")`: what `handleConfig` requires of a request with a body -/
+def Req.ctJSON (r : Req) : Bool := r.ct.containsJSON
 
 inductive Fail where
   | access (e : Err)      -- by the traversal (400 on GET; 409/404/500 on writes)
@@ -478,7 +502,13 @@ inductive Fail where
   | idMissing             -- 400 "request path is missing object ID"
   | idMalformed           -- 400 "malformed object path"
   | idUnknown             -- 404 "unknown object ID"
-  | notFound              -- mux: no handler (outside /config/ and /id/)
+  | notFound              -- mux: no handler (outside /config/, /id/, /load, /adapt)
+  | ctInvalid             -- 400 "invalid Content-Type" (mime.ParseMediaType)
+  | ctMalformed           -- 400 "malformed Content-Type" (no slash)
+  | adapterUnknown        -- 400 "unrecognized config adapter"
+  | adaptFailed           -- 400 "adapting config using … adapter"
+  | adaptEncode           -- 500 /adapt: the result is not JSON (json.RawMessage fails to encode)
+  | viaLoad (f : Fail)    -- 400 "loading config: <the error of changeConfig>"
   | panic
 deriving DecidableEq, Repr
 
@@ -486,6 +516,7 @@ inductive Resp where
   | okGet (out : Option Json) (etagPath : Bytes)
   | okWrite
   | redirect                 -- 301 from the ServeMux (unclean path, or "/config" without slash)
+  | okAdapt (result : Json)  -- /adapt: 200 {"result": …}
   | fail (f : Fail)
   /-- the `@id` is carried by more than one object: which one `/id/` reaches depends on Go's
       map iteration order (not a function of the history) -/
@@ -508,6 +539,12 @@ def statusOf : Fail → Nat
   | .idMalformed => 400
   | .idUnknown => 404
   | .notFound => 404
+  | .ctInvalid => 400
+  | .ctMalformed => 400
+  | .adapterUnknown => 400
+  | .adaptFailed => 400
+  | .adaptEncode => 500
+  | .viaLoad _ => 400
   | .panic => 0
 
 def toMethod : HMethod → Option Method
@@ -553,19 +590,25 @@ def muxClean (p : Bytes) : Bytes :=
   if p.getLast? = some slash ∧ cleanRooted p ≠ [slash] then cleanRooted p ++ [slash] else cleanRooted p
 
 inductive Route where
-  | config | id | redirect | none
+  | config | id | load | adapt | redirect | none
 deriving DecidableEq, Repr
 
 def cfgPrefix : Bytes := slash :: cfgKey ++ [slash]   -- "/config/"
 def idPrefix : Bytes := slash :: idSeg ++ [slash]     -- "/id/"
 
-/-- `ServeMux` for the three patterns that matter here ("/config/", "/id/", everything else) -/
+def loadPath : Bytes := [47, 108, 111, 97, 100]          -- "/load"
+def adaptPath : Bytes := [47, 97, 100, 97, 112, 116]    -- "/adapt"
+
+/-- `ServeMux` for the patterns that matter here: "/config/", "/id/", and the exact paths
+    "/load" and "/adapt" of the `admin.api.load` module (caddyconfig/load.go) -/
 def route (p : Bytes) : Route :=
   if p.head? ≠ some slash then .none
   else if muxClean p ≠ p then .redirect
   else if p = slash :: cfgKey ∨ p = slash :: idSeg then .redirect
   else if cfgPrefix.isPrefixOf p then .config
   else if idPrefix.isPrefixOf p then .id
+  else if p = loadPath then .load
+  else if p = adaptPath then .adapt
   else .none
 
 inductive IdRes where
@@ -597,12 +640,63 @@ def handleConfigID (idx : Index) (path : Bytes) : IdRes :=
       | _ => .ambiguous
   | _ => .fail .idMissing
 
+/-! ### caddyconfig/load.go: /load and /adapt -/
+
+inductive Adapted where
+  | body (b : Body)
+  | fail (f : Fail)
+deriving DecidableEq, Repr
+
+/-- `adaptByContentType(contentType, body)` -/
+def adaptByContentType (env : Env) (ct : CT) (b : Body) : Adapted :=
+  match ct with
+  | .none => .body b                       -- assume JSON as the default
+  | .invalid => .fail .ctInvalid
+  | .json | .jsonParams => .body b         -- strings.HasSuffix(ct, "/json")
+  | .noSlash => .fail .ctMalformed
+  | .jsonx | .plain => .fail .adapterUnknown
+  | .adapter =>
+    match env.adapt b with
+    | some j => .body (.val j)
+    | none => .fail .adaptFailed
+
+/-- what `handleLoad` makes of the outcome of `caddy.Load`: errSameConfig is "not really an
+    error"; everything else becomes APIError 400 "loading config: …" -/
+def loadResp : ChangeRes → Resp
+  | .ok => .okWrite
+  | .same => .okWrite
+  | c =>
+    match changeResp c with
+    | .fail f => .fail (.viaLoad f)
+    | r => r
+
+/-- `adminLoad.handleLoad`: `caddy.Load(body, forceReload)` =
+    `changeConfig(POST, "/config", body, "", forceReload)` — no Content-Type requirement,
+    no If-Match -/
+def handleLoad (env : Env) (r : Req) (s : State) : State × Resp :=
+  if r.method ≠ .post then (s, .fail .method)
+  else
+    match adaptByContentType env r.ct r.body with
+    | .fail f => (s, .fail f)
+    | .body b => (fun (x : State × ChangeRes) => (x.1, loadResp x.2)) (change env .post (slash :: cfgKey) b [] r.force s)
+
+/-- `adminLoad.handleAdapt`: adapts and answers with the result; touches nothing -/
+def handleAdapt (env : Env) (r : Req) (s : State) : State × Resp :=
+  if r.method ≠ .post then (s, .fail .method)
+  else
+    match adaptByContentType env r.ct r.body with
+    | .fail f => (s, .fail f)
+    | .body (.val j) => (s, .okAdapt j)
+    | .body _ => (s, .fail .adaptEncode)
+
 /-- `adminHandler.serveHTTP` → mux → handler, including the one internal redirect of `/id/` -/
 def serve (env : Env) (r : Req) (s : State) : State × Resp :=
   match route r.path with
   | .none => (s, .fail .notFound)
   | .redirect => (s, .redirect)
   | .config => handleConfig env r r.path s
+  | .load => handleLoad env r s
+  | .adapt => handleAdapt env r s
   | .id =>
     match handleConfigID s.index r.path with
     | .fail f => (s, .fail f)
